@@ -158,6 +158,9 @@ Proof. induction xs; cbn; [reflexivity|]. now rewrite IHxs. Qed.
 Lemma omean_some xs : omean (map Some xs) = Some (qmean xs).
 Proof. unfold omean. rewrite osum_some, map_length. reflexivity. Qed.
 
+Lemma omean_some_map {X} (f : X -> Qc) l : omean (map (fun x => Some (f x)) l) = Some (qmean (map f l)).
+Proof. rewrite <- (map_map f Some). apply omean_some. Qed.
+
 (* ---- agreement on clean real residuals ---- *)
 Definition clean_real (l : list entry) : Prop :=
   l <> [] /\ forall e, In e l -> exists re, e = EV re 0 /\ re <> 0.
@@ -192,7 +195,7 @@ Proof.
     rewrite nansum_abs2_kept, nansum_re_kept, nansum_im_kept, K. unfold qmean. rewrite !qlen_map. reflexivity. }
   unfold jax_key. rewrite P, !map_map. cbn [j_mean j_rcs j_ndof option_map fst snd].
   rewrite R1, R2, R3, R4, R5.
-  rewrite <- !(map_map _ Some). rewrite !omean_some.
+  rewrite !omean_some_map.
   assert (Hlast : In (last samples []) samples).
   { clear -Hne. induction samples as [|a [|b t] IH]; [contradiction|now left|].
     right. apply IH. discriminate. }
@@ -200,6 +203,6 @@ Proof.
   repeat split.
   - destruct samples as [|a t]; [contradiction|]. cbn [map].
     destruct (clean_kept a (Hc a (or_introl eq_refl))) as [Ka _]. rewrite Ka, KL.
-    f_equal. apply Hlen; [now left|assumption].
+    cbn [jr_ndof j_ndof]. f_equal. apply Hlen; [now left|assumption].
   - rewrite KL. unfold size. lia.
 Qed.
